@@ -27,6 +27,8 @@ func init() {
 					pairs(e, "c01chain/"+con+":"+o, "chain/"+con+"->"+o, lv, lv)
 				}
 			}
+			near := NearNumberArrays()
+			pairs(e, "c01:PRECISION:0.1", "near/PRECISION:0.1", near, near)
 			enumPairs("c01", allOptSets)(tier, e)
 		},
 		Run: runC01,
@@ -50,6 +52,12 @@ func runC01(c *engine.Case) engine.Result {
 	var fail string
 	var nh int
 	var text string
+	same := func(x, y V) bool {
+		if o.Eps > 0 {
+			return ref.EqualEps(x, y, o.Eps)
+		}
+		return ref.Equal(x, y, o.Reading)
+	}
 	p := impl.Guard(func() {
 		a := impl.Read(c.A)
 		b := impl.Read(c.B)
@@ -83,7 +91,7 @@ func runC01(c *engine.Case) engine.Result {
 			return
 		}
 		res.Traces++
-		if !ref.Equal(rv, bV, o.Reading) {
+		if !same(rv, bV) {
 			fail = fmt.Sprintf("in-memory Patch result %s is not b under the %v reading (reference)", ref.JSON(rv), o.Reading)
 			return
 		}
@@ -115,7 +123,7 @@ func runC01(c *engine.Case) engine.Result {
 			fail = "Patch(a, ReadDiffString(Render(d))) failed: " + out.String()
 			return
 		}
-		if !ref.Equal(out.Val, bV, o.Reading) {
+		if !same(out.Val, bV) {
 			fail = fmt.Sprintf("text-carried Patch result %s is not b under the %v reading", ref.JSON(out.Val), o.Reading)
 		}
 	})
